@@ -1,5 +1,6 @@
 import Skc.Model.Pelt
 import Skc.Lemmas.Argmin
+import Skc.Lemmas.ListAux
 import Skc.Spec.Segmentation
 import Mathlib.Algebra.Order.Group.Defs
 import Mathlib.Order.Basic
@@ -113,19 +114,6 @@ theorem good_mono (cost : Nat → Nat → α) (m : Nat) (opt opt' : Nat → α) 
   refine ⟨ha, h2, ?_⟩
   rw [hfr e0 hE, hfr s (by omega)]
   exact hlt
-
-theorem tail_reverse_getElem? {β : Type} (l : List β) (i : Nat) (x : β)
-    (h : l.tail.reverse[i]? = some x) : l.reverse[i]? = some x := by
-  cases l with
-  | nil => simpa using h
-  | cons a t =>
-    simp only [List.tail_cons] at h
-    have hi : i < t.reverse.length := by
-      by_contra hc
-      rw [List.getElem?_eq_none (by omega)] at h
-      cases h
-    rw [List.reverse_cons, List.getElem?_append_left hi]
-    exact h
 
 theorem inv_step (pick : (Nat → α) → List Nat → Nat) (pr : α → α → Bool)
     (hpick_mem : ∀ (f : Nat → α) (l : List Nat), l ≠ [] → pick f l ∈ l) (hpick_le : ∀ (f : Nat → α) (l : List Nat), ∀ x ∈ l, f (pick f l) ≤ f x)
